@@ -46,6 +46,11 @@ func probe2() {
 	fmt.Println("enc Bg nil non-omit:", tryEncode(api, &struct {
 		Bg *big.Int `serix:""`
 	}{}))
+	outs := map[string]int{}
+	for i := 0; i < 30; i++ {
+		outs[tryEncode(api, &qM{MK: nil, MP: map[string]*qS{"a": {A: 1}, "b": {A: 2}, "c": {A: 3}, "d": {A: 4}, "e": {A: 5}}})]++
+	}
+	fmt.Println("enc same map 30x: distinct outputs =", len(outs))
 	fmt.Println("dec MP:", tryDecode(api, `{"mP":{"k":{"type":7,"a":1}}}`, &qM{}))
 	fmt.Println("dec MI:", tryDecode(api, `{"mI":{"k":{"type":7,"a":1}}}`, &qM{}))
 	fmt.Println("dec SP:", tryDecode(api, `{"sP":[{"type":7,"a":1}]}`, &qM{}))
